@@ -339,6 +339,9 @@ func runOne(vec map[string]string) (out map[string]string) {
 // runHarness compiles the harness into the package (overlay) and runs it on the vectors.
 func (v *Verifier) runHarness(h *harness, vecs []map[string]string) ([]map[string]string, string, error) {
 	dir := filepath.Join(verifRoot, "build", "replay", sanitize(h.fr.QName()))
+	if os.Getenv("VERIF_REPO") != "" {
+		dir = filepath.Join(os.TempDir(), fmt.Sprintf("verif-replay-%d", os.Getpid()), sanitize(h.fr.QName()))
+	}
 	os.MkdirAll(dir, 0o755)
 	src := filepath.Join(dir, "zz_verif_replay_test.go")
 	os.WriteFile(src, []byte(h.src), 0o644)
@@ -453,6 +456,12 @@ func (v *Verifier) evalOn(fr *FuncRef, fc *FuncContract, cs caseSpec, vec, out m
 			}
 			ex.specVars[n] = a
 		case OpaqueV:
+			if a.Kind == "string" {
+				if ex.strVals == nil {
+					ex.strVals = map[string]string{}
+				}
+				ex.strVals[fmt.Sprint(a.Data)] = vec["string("+n+")"]
+			}
 			ex.specVars[n] = a
 		default:
 			ex.specVars[n] = args[i]
@@ -537,7 +546,11 @@ func (v *Verifier) evalOn(fr *FuncRef, fc *FuncContract, cs caseSpec, vec, out m
 				results = append(results, SliceV{Obj: o, Len: len(bs), Cap: len(bs), Elem: types.Typ[types.Uint8]})
 			}
 		case "string":
-			results = append(results, OpaqueV{Kind: "string", Data: out[r+".string"]})
+			if ex.strVals == nil {
+				ex.strVals = map[string]string{}
+			}
+			ex.strVals["result:"+r] = out[r+".string"]
+			results = append(results, OpaqueV{Kind: "string", Data: "result:" + r})
 		default:
 			if at, ok := rt.Underlying().(*types.Array); ok {
 				cells := make([]Value, at.Len())
